@@ -785,7 +785,11 @@ func (t *fnTrans) builtin(in ssa.Instruction, b *ssa.Builtin, cc *ssa.CallCommon
 		if t.chanNeverClosed(cc.Args[0]) {
 			t.oblige("safe.close", "neverclosed:"+t.describe(cc.Args[0]), in.Pos(), "false", "close of a channel declared never_closed")
 		}
-		t.oblige("safe.close", "close:"+t.describe(cc.Args[0]), in.Pos(), and("(not (= "+x+" 0))", not(sel(cl, x))), "close of nil or closed channel panics")
+		alts := t.tokCloseGrants(x)
+		// nil part: same trust policy as for dereferences (fields not declared nullable)
+		t.nilCheck(cc.Args[0], x, in.Pos(), "close")
+		t.oblige("safe.close", "close:"+t.describe(cc.Args[0]), in.Pos(), not(sel(cl, x)), "close of a closed channel panics")
+		t.tokClose(in, cc.Args[0], x, alts)
 		t.h.set(t.cur, "chclosed", store(cl, x, "true"))
 		t.event("closed", x, "")
 	case "panic":
@@ -978,6 +982,7 @@ func (t *fnTrans) mUnlock(in ssa.Instruction, cc *ssa.CallCommon, res ssa.Value)
 	k, field := t.lockKey(cc.Args[0])
 	nm := t.lockName(cc.Args[0])
 	t.oblige("lock.unheld", "unlock:"+nm, in.Pos(), t.heldGet(k), "Unlock of a mutex that is not held")
+	t.tokRelease(k, in.Pos(), "unlock:"+nm)
 	t.releaseEffects(in, cc.Args[0], field, nm)
 	t.h.set(t.cur, "held", store(t.h.get(t.cur, "held"), k, "false"))
 	return true
@@ -1046,6 +1051,7 @@ func (t *fnTrans) mCondWait(in ssa.Instruction, cc *ssa.CallCommon, res ssa.Valu
 	t.oblige("lock.condwait", "wait:"+nm, in.Pos(), t.heldGet(k), "cond.Wait without holding its lock")
 	// nothing else may be held while waiting
 	t.blockCheckExcept(in.Pos(), "wait:"+nm, k)
+	t.tokRelease(k, in.Pos(), "wait:"+nm)
 	t.releaseEffectsKey(in, muVal, field, nm)
 	// re-acquire
 	t.acquireEffectsKey(muVal, field)
